@@ -72,13 +72,21 @@ let tok_of_oev = function
   | OErr ErrEncoding -> "e:enc"
   | OErr ErrDecompress -> "e:dec"
 
-(* OUT -> groups per executed op, table tokens, flags *)
-let split_out (outs : string list) : string list list * string list =
+(* OUT -> per executed op (stream index, calls), then the tokens after "#" *)
+let split_out (outs : string list) : (int * string list) list * string list =
+  let tag t = if t = "|" then Some 0
+    else if String.length t > 1 && t.[0] = '|' then Some (int_of_string (tail_from t 1)) else None in
+  let close cur acc = match cur with None -> acc | Some (k, c) -> (k, List.rev c) :: acc in
   let rec go cur acc = function
-    | [] -> (List.rev (match cur with None -> acc | Some c -> List.rev c :: acc), [])
-    | "#" :: r -> (List.rev (match cur with None -> acc | Some c -> List.rev c :: acc), r)
-    | "|" :: r -> go (Some []) (match cur with None -> acc | Some c -> List.rev c :: acc) r
-    | x :: r -> (match cur with Some c -> go (Some (x :: c)) acc r | None -> failwith "event before first op") in
+    | [] -> (List.rev (close cur acc), [])
+    | "#" :: r -> (List.rev (close cur acc), r)
+    | x :: r ->
+        (match tag x with
+         | Some k -> go (Some (k, [])) (close cur acc) r
+         | None ->
+             (match cur with
+              | Some (k, c) -> go (Some (k, x :: c)) acc r
+              | None -> failwith "event before first op")) in
   go None [] outs
 
 let clip s = if String.length s > 300 then String.sub s 0 300 ^ "..." else s
@@ -88,26 +96,34 @@ let is_prefix p s = String.length s >= String.length p && String.sub s 0 (String
 let judge _name ins outs =
   if List.mem "BADCASE" outs then VDisagree "harness-rejected-the-script" else
   let tb = { dec = Hashtbl.create 16; cmp = Hashtbl.create 16 } in
-  let ops = ref [] and specs = ref [] in
+  let sops = ref [] and sspecs = ref [] and cur = ref 0 in
   List.iter (fun t ->
       if t = "" then () else
       match t.[0] with
-      | 'H' -> ops := parse_header_tok t :: !ops
-      | 'D' -> ops := parse_data_tok t :: !ops
+      | '@' -> cur := int_of_string (tail_from t 1)
+      | 'H' -> sops := (!cur, parse_header_tok t) :: !sops
+      | 'D' -> sops := (!cur, parse_data_tok t) :: !sops
       | 'W' ->
           (match String.split_on_char ':' t with
-           | [h; f; p] -> specs := (dir_of_char h.[1], { mflag = (f = "1"); mpayload = chars_of_hex p }) :: !specs
+           | [h; f; p] -> sspecs := (!cur, (dir_of_char h.[1], { mflag = (f = "1"); mpayload = chars_of_hex p })) :: !sspecs
            | _ -> failwith "bad W token")
       | 'T' -> add_table tb ~from_sink:false t
       | _ -> ()) ins;
-  let ops = List.rev !ops and specs = List.rev !specs in
+  let sops = List.rev !sops and sspecs = List.rev !sspecs in
   let (groups, extra) = split_out outs in
   List.iter (fun t -> if String.length t > 0 && t.[0] = 't' then add_table tb ~from_sink:true t) extra;
   if List.mem "BADTABLE" extra then VDisagree "harness-decomp-table-wrong" else
-  let all_ev = List.concat groups in
-  if List.mem "PANIC" all_ev then VPropfail ("no_panic", "the code under test panicked") else
+  let every_ev = List.concat (List.map Stdlib.snd groups) in
+  if List.mem "PANIC" every_ev then VPropfail ("no_panic", "the code under test panicked") else
+  (match List.find_opt (fun t -> String.length t > 0 && t.[0] = '!') every_ev with
+   | Some t -> VPropfail ("stream_interference", "a call was observed on another stream than the one whose frame was being processed: " ^ clip t)
+   | None ->
   let decomp = decomp_of tb and comp = comp_of tb in
+  let stream_ids = List.sort_uniq compare (List.map Stdlib.fst sops) in
+  let nontrivial = ref false in
 
+  (* the per-stream oracle: [ops], [specs], [all_ev] are those of ONE stream *)
+  let oracle_stream (sid : int) (ops : op list) (specs : (dir * msg) list) (all_ev : string list) : (string * string) option =
   (* ---------- the property oracle, per direction, on the real observation ---------- *)
   let headers_first =
     let rec go seen_data = function
@@ -118,7 +134,6 @@ let judge _name ins outs =
   let hdr_ops = List.filter (function OpHeader (_, _, false) -> true | _ -> false) ops in
   let after_headers = pair_after decomp comp repaired pair0 hdr_ops in
   let header_error = List.mem "e:enc" all_ev in
-  let nontrivial = ref false in
   let oracle_dir (d : dir) : (string * string) option =
     let dc = char_of_dir d in
     let frames = List.filter_map (function OpData (d', b, es) when d' = d -> Some (b, es) | _ -> None) ops in
@@ -203,28 +218,41 @@ let judge _name ins outs =
               else None
         end
       end in
-  match (match oracle_dir CtoS with Some x -> Some x | None -> oracle_dir StoC) with
+    (match oracle_dir CtoS with
+     | Some (c, dt) -> Some (c, Printf.sprintf "stream=%d %s" sid dt)
+     | None -> (match oracle_dir StoC with Some (c, dt) -> Some (c, Printf.sprintf "stream=%d %s" sid dt) | None -> None)) in
+  let first_fail =
+    List.fold_left (fun acc k ->
+        match acc with
+        | Some _ -> acc
+        | None ->
+            let ops = List.filter_map (fun (k', o) -> if k' = k then Some o else None) sops in
+            let specs = List.filter_map (fun (k', x) -> if k' = k then Some x else None) sspecs in
+            let evs = List.concat (List.filter_map (fun (k', g) -> if k' = k then Some g else None) groups) in
+            oracle_stream k ops specs evs) None stream_ids in
+  match first_fail with
   | Some (clause, detail) -> VPropfail (clause, detail)
   | None ->
-    (* ---------- correspondence: model vs implementation, op by op ---------- *)
+    (* ---------- correspondence: model vs implementation, op by op, all streams ---------- *)
     let render v =
-      match run_ops decomp comp v pair0 ops with
+      match run_session decomp comp v sess0 (List.map (fun (k, o) -> (nat_of_int k, o)) sops) with
       | None -> None
-      | Some outs -> Some (List.map (fun g -> List.map tok_of_oev g) outs) in
+      | Some outs -> Some (List.map (fun (k, g) -> (int_of_nat k, List.map tok_of_oev g)) outs) in
     (match render repaired with
      | None -> VDisagree "model-out-of-fuel"
      | Some want ->
        if want = groups then VOk !nontrivial
        else begin
+         let show (k, x) = Printf.sprintf "stream%d:" k ^ String.concat "," x in
          let rec first_diff i a b = match a, b with
            | [], [] -> (i, "", "")
-           | x :: a', y :: b' -> if x = y then first_diff (i + 1) a' b' else (i, String.concat "," x, String.concat "," y)
-           | x :: _, [] -> (i, String.concat "," x, "<no-such-op>")
-           | [], y :: _ -> (i, "<no-such-op>", String.concat "," y) in
+           | x :: a', y :: b' -> if x = y then first_diff (i + 1) a' b' else (i, show x, show y)
+           | x :: _, [] -> (i, show x, "<no-such-op>")
+           | [], y :: _ -> (i, "<no-such-op>", show y) in
          let (i, w, g) = first_diff 0 want groups in
          let orig = match render original with Some o when o = groups -> " (observation equals the model of the ORIGINAL, unrepaired code)" | _ -> "" in
          VDisagree (Printf.sprintf "op#%d model=[%s] impl=[%s]%s" i (clip w) (clip g) orig)
-       end)
+       end))
 
 (* Same protocol as common.ml's [run_driver], except that at most [cap] bad
    verdict lines are printed per (kind, clause): on an unrepaired tree tens of
